@@ -737,10 +737,6 @@ func (c *Ctx) applyLemma(pi *PkgInfo, lm *Lemma, args []*Val) {
 		post = append(post, c.evalSpecBool(e.E))
 	}
 	c.Fr, c.bound = savedFr, savedBound
-	for i, p := range pre {
-		c.assert(fmt.Sprintf("lemma-pre(%s)", lm.Name), fmt.Sprintf("%d", i+1), p, lm.Requires[i].Src, nil)
-	}
-	for _, q := range post {
-		c.assume(q)
-	}
+	// instance of an already established (or axiomatic) fact: premise ==> conclusion
+	c.assume(Implies(And(pre...), And(post...)))
 }
